@@ -1,6 +1,6 @@
 #!/usr/bin/env python3
 """Evaluate a seeded change produced by an independent agent.
-  tools/seedtest.py <ID> [--dir /tmp/seed] [--also C02,C05]
+  tools/seedtest.py <ID> [--dir /tmp/seed] [--also C02,C05] [--suffix b]
 1. confirm in the agent's scratch worktree: builds, the 138 library tests pass, the demo fails with
    the change and passes without it;
 2. apply the patch to /repo, run ./check <ID> (and the --also checks), undo it;
@@ -18,12 +18,15 @@ def main():
     pid = sys.argv[1]
     base = "/tmp/seed"
     also = []
+    suffix = ""
     a = sys.argv[2:]
     while a:
         if a[0] == "--dir":
             base = a[1]; a = a[2:]
         elif a[0] == "--also":
             also = a[1].split(","); a = a[2:]
+        elif a[0] == "--suffix":
+            suffix = a[1]; a = a[2:]
         else:
             a = a[1:]
     wt = f"{base}/{pid}"
@@ -74,7 +77,7 @@ def main():
     meta["results"] = results
     meta["caught"] = results[pid]["exit"] == 1
     # -- 3. store
-    dst = os.path.join(ROOT, "seeded", pid)
+    dst = os.path.join(ROOT, "seeded", pid + suffix)
     os.makedirs(dst, exist_ok=True)
     shutil.copy(patch, dst)
     for f in os.listdir(out):
